@@ -71,6 +71,16 @@ CLAIMED = {
             "images tile the grid (group geometry) or non-negativity of user-supplied weights.",
             "Trusted: Python ast, E1 CFG.",
             "DESIGN.md §3 C06"),
+    "C07": ("keyword-level def-use on every Result.transform, group-average shape, CFG dominance of the irreducible-K => "
+            "symmetrise rule in run(); plus the C08 grade interpreter for the declarations themselves",
+            "other",
+            "Decides that a wrong parity, rank or weight cannot enter symmetrisation through plumbing (every Result.transform "
+            "uses and carries its own rank/transformTR/transformInv, tabulated k-points are mapped with the same operation, the "
+            "group average divides by the number of operations, irreducible K-points force symmetrisation before the per-K "
+            "function is configured) and, through C08's rules run in this check as R08.x, that the declared parities are those "
+            "of the evaluated expressions. Does not decide numerical equality of irreducible and full-grid integrals.",
+            "Trusted: as for C08; Python ast; E1 CFG.",
+            "DESIGN.md §3 C07"),
     "C08": ("abstract interpretation of the formula classes over a Z2xZ2 symmetry-grade lattice (a type system for TR/inversion "
             "parity): homogeneity of sums and declared-vs-inferred comparison for every consumed declaration",
             "other",
@@ -169,6 +179,24 @@ CLAIMED = {
             "Trusted: Python ast, wbstatic.algebra, the AST->rational translation, the textbook formula encoded in the checker, "
             "numba executing Python arithmetic semantics.",
             "DESIGN.md §3 C14"),
+    "C22": ("CFG dominance (success return dominated by the completeness test whose failing arm leaves), def-use provenance "
+            "of the tested quantity and of the returned vectors, structural pairing rules",
+            "other",
+            "Decides that whatever b-vectors/weights find_bk_vectors, from_kpoints and from_nnkp deliver passed "
+            "||sum_s w_s sum_b b b^T - 1|| <= bk_complete_tol computed from the very shells that are returned, that shells are "
+            "returned whole with one weight from a symmetric search box, and that each neighbour index is stored together with "
+            "its lattice shift under the exact integer test (k + b - k') mod mesh = 0 with a raise when none exists. Does not "
+            "decide that a solution is found, nor the shell-selection heuristics.",
+            "Trusted: Python ast, E1/E2.",
+            "DESIGN.md §3 C22"),
+    "C23": ("same-block pairing (test / add / append) and CFG dominance of both returns by the two cardinality tests",
+            "other",
+            "Decides that point selection for a given mesh returns pairwise distinct on-mesh integer coordinates whose count "
+            "equals the mesh size (hence every mesh point exactly once) and raises for incomplete meshes on every path; and that "
+            "the detected mesh is verified against all points before being returned. Does not decide the floating-point fraction "
+            "arithmetic of the detection.",
+            "Trusted: Python ast, E1.",
+            "DESIGN.md §3 C23"),
     "C25": ("spin-channel tag dataflow (identifier tags and stride-2 slots) with enumerated guarded-aliasing idioms; owner "
             "provenance of R-indexed arrays; positional pairing of SOC blocks with Pauli elements and R-maps",
             "other",
@@ -188,6 +216,25 @@ CLAIMED = {
             "centres on every path. Does not decide equality of evaluated band quantities.",
             "Trusted: Python ast, E1 CFG, E3 algebra.",
             "DESIGN.md §3 C26"),
+    "C29": ("statement-order and def-use rules on path construction/refinement; exact polynomial comparison of inserted "
+            "points; CFG dominance of the coordinate-based re-ordering in run() (shared with C12)",
+            "other",
+            "Decides that refinement keeps every original point with its label/break at its own new index and inserts uniformly "
+            "spaced points, that the path coordinate is a cumulative sum of non-negative increments, that from_nodes labels "
+            "nodes at their own index with uniform end-exclusive segments, that K-point batches tile the path in order, and that "
+            "run() restores path order from coordinates on every path to its return. Does not decide per-point equality with "
+            "single-point evaluation.",
+            "Trusted: Python ast, E1-E3.",
+            "DESIGN.md §3 C29"),
+    "C30": ("exact polynomial normal form of the slot index compared with the C-order linearisation; sibling agreement of every "
+            "reshape/flatten order; structural slot-map and component-table rules",
+            "other",
+            "Decides that the slot index, the generated grid k-points, get_data's reshape and the FermiSurfer flatten all use C "
+            "order, that every on-grid k-point is appended to the slot of its own index and slots are averaged over their own "
+            "members, and that x/y/z/trace/tuple components index the tensor axes as documented. Does not decide equality with "
+            "single-point evaluation.",
+            "Trusted: Python ast, E3.",
+            "DESIGN.md §3 C30"),
     "C32": ("reaching definitions (parameter liveness) over all model builders; sibling comparison of hop tables after "
             "resolving temporaries; Hermitian-partner pattern rule",
             "other",
